@@ -48,6 +48,8 @@ enum Unit {
     Huge,
     /// root-only programs in which the op's operands are used again afterwards
     Reuse(B),
+    /// root-only programs in which a unary op's argument is used again afterwards (out != arg register)
+    ReuseUnary(U),
     Transform(bool),
 }
 
@@ -102,6 +104,9 @@ fn units(tier: Tier) -> Vec<Unit> {
     v.push(Unit::Huge);
     for b in refsem::BINARY {
         v.push(Unit::Reuse(b));
+    }
+    for u in refsem::UNARY {
+        v.push(Unit::ReuseUnary(u));
     }
     v
 }
@@ -544,6 +549,26 @@ fn transform_unit<F: Backend>(cx: &mut Cx, tier: Tier) {
             m[(3, 2)] = 0.3;
             m * Matrix4::new_rotation(Vector3::new(0.3, -0.2, 0.5)) * Matrix4::new_scaling(0.75)
         }, false),
+        // coefficients far below f32::EPSILON are still coefficients: on a box
+        // that is huge along the sheared axis they move the result by whole units
+        // (these two matrices are paired with the huge-box alphabet below)
+        ("tiny shear x' = x + 2^-27 y", {
+            let mut m = Matrix4::identity();
+            m[(0, 1)] = 2f32.powi(-27);
+            m
+        }, false),
+        ("tiny entries 2^-27 / -2^-26 / 2^-30 off the diagonal and in the translation", {
+            let mut m = Matrix4::identity();
+            let t = 2f32.powi(-27);
+            m[(0, 1)] = t;
+            m[(0, 2)] = -2.0 * t;
+            m[(1, 0)] = t / 8.0;
+            m[(1, 2)] = t;
+            m[(2, 0)] = -t;
+            m[(2, 1)] = 2.0 * t;
+            m[(0, 3)] = t;
+            m
+        }, false),
     ];
     let progs: Vec<Prog> = {
         let mut v = vec![];
@@ -579,7 +604,9 @@ fn transform_unit<F: Backend>(cx: &mut Cx, tier: Tier) {
         v
     };
     let e: Vec<f32> = if tier == Tier::Quick { vec![-2.0, -0.5, 0.0, 0.25, 1.0, 3.0] } else { vec![-4.0, -2.0, -0.5, 0.0, 0.25, 1.0, 3.0, 100.0] };
-    let ivs = alpha::intervals(&e);
+    let ivs_normal = alpha::intervals(&e);
+    let huge = 2f32.powi(30);
+    let ivs_huge = alpha::intervals(&[-huge, -1.0, 0.0, 1.0, huge]);
     let mut sub = 0u64;
     for p in &progs {
         let mut ctx = Context::new();
@@ -592,8 +619,9 @@ fn transform_unit<F: Backend>(cx: &mut Cx, tier: Tier) {
         let mut pe = Shape::<F>::new_point_eval();
         for (mname, m, exact) in &mats {
             let desc = || json!({"program": p.describe(), "backend": F::NAME, "matrix": mname});
-            for ix in &ivs {
-                for iy in &ivs {
+            let ivs = if mname.starts_with("tiny") { &ivs_huge } else { &ivs_normal };
+            for ix in ivs {
+                for iy in ivs {
                     for iz in ivs.iter().step_by(3) {
                         let s = sub;
                         sub += 1;
@@ -667,12 +695,13 @@ impl Check for C03 {
             Unit::Fan { w } => format!("fan w={w}"),
             Unit::Huge => "huge".into(),
             Unit::Reuse(b) => format!("reuse {b:?}"),
+            Unit::ReuseUnary(u) => format!("reuse {u:?}"),
             Unit::Transform(j) => format!("{} transform", if *j { "jit" } else { "vm" }),
         }
     }
     fn meta(&self, tier: Tier) -> Meta {
         Meta {
-            rule: "case = (program, box); (a) every opcode x operand form {reg, reg/reg, same-reg, reg/imm and imm/reg with 12 immediates} x every interval (pair) over the finite endpoint alphabet E (+op-specific boundary endpoints: quadrant boundaries, +-1+-ulp, exp/ln limits), sample points per interval = endpoints, midpoint, neighbours of the endpoints and every alphabet value inside, all combinations for binary ops; (b) fan families of width w = 1..16 (thorough 24): w values live across atan2 / mod / sin / exp call-outs, consumed in three orders, all nodes exported, 225 boxes; one huge program with 300 simultaneously live intervals; for every binary opcode 11 ROOT-ONLY programs in which the op's operands are used again afterwards (register-sharing patterns; exporting all nodes would keep every value live), root interval vs the point evaluator at 3^n points of 784 boxes; every DAG up to the node bound over one representative op per interval-behaviour class {add,sub,mul,div,recip,sqrt,square,abs,sin,atan2,floor,mod,min,and,compare,not} with all nodes exported, boxes from a per-axis endpoint grid, points = corners/edge midpoints/centre, local obligation at every node on the intermediate intervals that actually arise (operand values clamped into the evaluator's operand intervals); (c) Shape API with 10 matrices (exact dyadic ones checked to 4 ulp; 30-degree rotation and four projective ones - bottom row (0,0,.25,2), (0,0,.25,1), (.125,-.0625,.25,1), perspective x rotation x scale - to 1e-5 relative); VM and JIT; tolerance 4 ulp; excluded: NaN interval, NaN value, atan2(0,0); non-trivial = the returned interval is not the NaN interval".into(),
+            rule: "case = (program, box); (a) every opcode x operand form {reg, reg/reg, same-reg, reg/imm and imm/reg with 12 immediates} x every interval (pair) over the finite endpoint alphabet E (+op-specific boundary endpoints: quadrant boundaries, +-1+-ulp, exp/ln limits), sample points per interval = endpoints, midpoint, neighbours of the endpoints and every alphabet value inside, all combinations for binary ops; (b) fan families of width w = 1..16 (thorough 24): w values live across atan2 / mod / sin / exp call-outs, consumed in three orders, all nodes exported, 225 boxes; one huge program with 300 simultaneously live intervals; for every binary opcode 11 ROOT-ONLY programs in which the op's operands are used again afterwards (register-sharing patterns; exporting all nodes would keep every value live), root interval vs the point evaluator at 3^n points of 784 boxes; the same for every UNARY opcode (4 programs each: the argument is used again after the op, so the output register differs from the argument register); every DAG up to the node bound over one representative op per interval-behaviour class {add,sub,mul,div,recip,sqrt,square,abs,sin,atan2,floor,mod,min,and,compare,not} with all nodes exported, boxes from a per-axis endpoint grid, points = corners/edge midpoints/centre, local obligation at every node on the intermediate intervals that actually arise (operand values clamped into the evaluator's operand intervals); (c) Shape API with 12 matrices (two with entries of magnitude 2^-27 ... 2^-30, far below f32::EPSILON, on boxes with endpoints up to +-2^30; exact dyadic ones checked to 4 ulp; 30-degree rotation and four projective ones - bottom row (0,0,.25,2), (0,0,.25,1), (.125,-.0625,.25,1), perspective x rotation x scale - to 1e-5 relative); VM and JIT; tolerance 4 ulp; excluded: NaN interval, NaN value, atan2(0,0); non-trivial = the returned interval is not the NaN interval".into(),
             bounds: match tier {
                 Tier::Quick => "two-variable forms over 19 endpoints (190 intervals, 36100 pairs); DAG nodes <= 2".into(),
                 Tier::Thorough => "two-variable forms over the full endpoint alphabet; DAG nodes <= 3 (thinned box grid at n = 3)".into(),
@@ -702,6 +731,18 @@ impl Check for C03 {
                 let iv = alpha::intervals(&e);
                 let boxes: Vec<Vec<(f32, f32)>> = iv.iter().flat_map(|a| iv.iter().map(move |c| vec![*a, *c])).collect();
                 for (k, p) in crate::prog::reuse_patterns(b).iter().enumerate() {
+                    if cx.case(k as u64) {
+                        cx.add("cases", 1);
+                        root_prog::<VmFunction>(cx, p, &boxes);
+                        root_prog::<JitFunction>(cx, p, &boxes);
+                    }
+                }
+            }
+            Unit::ReuseUnary(u) => {
+                let e = [-2.0f32, -0.5, -0.0, 0.0, 0.25, 0.49999997, 1.0, 3.0];
+                let iv = alpha::intervals(&e);
+                let boxes: Vec<Vec<(f32, f32)>> = iv.iter().map(|a| vec![*a]).collect();
+                for (k, p) in crate::prog::reuse_patterns_unary(u).iter().enumerate() {
                     if cx.case(k as u64) {
                         cx.add("cases", 1);
                         root_prog::<VmFunction>(cx, p, &boxes);
